@@ -120,7 +120,7 @@ def finish(ctx, level_explanation, trusted_base, files, replay_key=None, quiet=F
             kf.append((f, known_keys[(f.prop, f.key)]))
         else:
             viol.append(f)
-    official = os.path.abspath(ctx.root) == "/repo" and replay_key is None and not quiet
+    official = os.path.abspath(ctx.root) == "/repo" and replay_key is None and not quiet and not os.environ.get("VERIF_NOEVIDENCE")
     if official:
         fdir = os.path.join(VERIF, "evidence", "findings")
     else:
